@@ -41,13 +41,18 @@ ASSUME = {
 
 
 E = lambda *names: ["CacheVerif.Expect." + n for n in names]
+# The call structure of the cache-layer methods (Expect.Cache: a pinned, purely syntactic token stream) used to be an
+# obligation of every cache-level property.  It is superseded there by the semantic ties - interpreter on the generated
+# syntax = sequential model (DEEP), steps of M5 = traced atomic actions (TRACE) - which say the same thing about
+# behaviour and survive behaviour-preserving rewrites (renamed locals, a helper method, an inverted if).  It stays an
+# obligation of C14, whose footprint argument is about the syntactic list of plain accesses.
 EXPECT = {
-    "C01": E("Cache"), "C02": E("Cache"), "C06": E("Cache"), "C09": E("Cache", "Ctor"), "C12": E("Cache", "Ctor"),
+    "C09": E("Ctor"), "C12": E("Ctor"),
     "C03": E("Load", "DoCompute", "Resize", "Lock"), "C04": E("Load", "DoCompute", "Resize"),
-    "C05": E("DoCompute", "Cache"), "C07": E("Range"), "C08": E("DoCompute", "Resize"),
+    "C05": E("DoCompute"), "C07": E("Range"), "C08": E("DoCompute", "Resize"),
     "C10": E("Load", "DoCompute"), "C11": E("DoCompute", "Resize", "Alloc"),
-    "C13": E("DoCompute", "Resize", "Range", "Lock", "Cache"), "C14": E("Load", "DoCompute", "Resize", "Range", "Lock", "Cache", "Ctor"),
-    "C15": E("Ctor", "Cache"), "C16": E("Load"),
+    "C13": E("DoCompute", "Resize", "Range", "Lock"), "C14": E("Load", "DoCompute", "Resize", "Range", "Lock", "Cache", "Ctor"),
+    "C15": E("Ctor"), "C16": E("Load"),
 }
 
 
@@ -58,7 +63,8 @@ DEEP = {p: ["CacheVerif.Proofs.DeepCache", "CacheVerif.Proofs.DeepCacheOf", "Cac
 
 # the concurrent cache model M5 is tied to the source text by: solo run of M5 = sequential step (ConcCacheSolo), and
 # steps of M5 = atomic actions the tracing interpreter records on the generated syntax (DeepTrace, both twins)
-TRACE = {p: ["CacheVerif.Proofs.ConcCacheSolo", "CacheVerif.Proofs.DeepTrace", "CacheVerif.Proofs.DeepTraceOf"] for p in ("C02", "C06", "C09", "C13", "C16")}
+TRACE = {p: ["CacheVerif.Proofs.ConcCacheSolo", "CacheVerif.Proofs.DeepTrace", "CacheVerif.Proofs.DeepTraceOf"]
+         for p in ("C01", "C02", "C05", "C06", "C09", "C12", "C13", "C15", "C16")}
 
 PREMISE = {p: E("Load", "DoCompute", "Resize", "Range", "Lock") for p in ("C01", "C02", "C05", "C06", "C07", "C08", "C09", "C12", "C15")}
 
